@@ -103,6 +103,14 @@ impl<T: Write + Read + Seek> PagedWriter<T> {
         Ok(())
     }
 
+    // Load the existing data of the page that follows a page that was just written.
+    fn load_next_page(&mut self) -> std::io::Result<()> {
+        let page_phys_offset = self.writer.stream_position()?;
+        self.read_current_page()?;
+        self.writer.seek(SeekFrom::Start(page_phys_offset))?;
+        Ok(())
+    }
+
     // Get the current physical size of the file.
     pub fn physical_size(&mut self) -> Result<u64> {
         self.flush().write_err("Cannot flush writer")?;
@@ -163,11 +171,15 @@ impl<T: Write + Read + Seek> Write for PagedWriter<T> {
 
             self.page_buffer[PAGE_PAYLOAD_SIZE..].copy_from_slice(&crc.to_be_bytes());
             self.writer.write_all(&self.page_buffer)?;
-
-            let page_phys_offset = self.writer.stream_position()?;
             self.offset = 0;
-            self.read_current_page()?;
-            self.writer.seek(SeekFrom::Start(page_phys_offset))?;
+
+            // The bytes of the caller are consumed at this point. An "interrupted" error must not
+            // get out of here, because callers like write_all() and std::io::copy() answer it by
+            // writing the same bytes again, which would store them twice.
+            self.load_next_page().map_err(|err| match err.kind() {
+                std::io::ErrorKind::Interrupted => std::io::Error::other(err),
+                _ => err,
+            })?;
         }
         Ok(writeable_bytes)
     }
